@@ -8,11 +8,22 @@ from .. import gen, impl, oracle, ser, stream
 from .c11 import make_matrix, tol_of
 
 ID = "C12"
-LEVEL = "translation_validation"
-PROPS_MODULE = None
-THEOREMS = []
-LEAN_FILES = []
-PLANNED = ["matrix_sector_injective", "toDense_is_direct_sum", "norm_sq_eq_dense"]
+LEVEL = "proof"
+PROPS_MODULE = "SymmModel.Props.C12"
+THEOREMS = [
+    "SymmModel.C12.matrix_sector_injective",
+    "SymmModel.C12.column_keyed_tables_never_overwrite",
+    "SymmModel.C12.svd_values_one_per_block",
+    "SymmModel.C12.eigh_values_one_per_block",
+    "SymmModel.C12.toDense_is_direct_sum",
+    "SymmModel.C12.toDense_entry",
+    "SymmModel.C12.norm_sq_blocks",
+    "SymmModel.C12.norm_sq_blocks_valid",
+    "SymmModel.C12.norm_sq_gauge",
+    "SymmModel.C12.norm_sq_phaseSync"
+]
+LEAN_FILES = ["SymmModel.Props.C12", "SymmModel.Proofs.LinalgLemmas", "SymmModel.Proofs.LinalgFactors", "SymmModel.Proofs.LinalgDense", "SymmModel.Proofs.LinalgSolve"]
+PLANNED = ["norm_sq_eq_dense (sum over dense positions)", "solve_dense", "cited, not proved: the spectrum of a direct sum is the union of the summands' spectra"]
 RULE = ("random abelian matrices (all symmetries, dualness, charges, block shapes, sparse, real/complex) and "
         "fermionic ones for singular values and norm: singular values as a multiset vs numpy's SVD of an independent "
         "densification (tolerance 1e-9 relative; matrices with exactly known integer singular values included), "
